@@ -253,6 +253,25 @@ fn deep_cfg<Y: Plan>(what: &str, n: usize, disc: Disc, merge: bool) -> Cfg {
     cfg(&format!("{} {} narrow alphabet, 2 actors, {:?}{} n<={}", Y::NAME, what, disc, if merge { "+merge" } else { "" }, n), n, 2, disc, merge, Y::narrow(), false)
 }
 
+/// one key, nested add_all (one dot witnesses two members), member and key removes: two pending nested removes whose
+/// contexts collapse under a partial key remove need add_all + two member removes + a key remove (seeds C05-5, C08-5, C20-5)
+fn map_addall(what: &str, n: usize, disc: Disc, merge: bool) -> Cfg {
+    cfg(
+        &format!("map_orswot {} nested add_all alphabet (one key, two members), 3 actors, {:?}{} n<={}", what, disc, if merge { "+merge" } else { "" }, n),
+        n,
+        3,
+        disc,
+        merge,
+        vec![cmd(mo::ADD, 0, 0), cmd(mo::ADD_ALL, 0, 0), cmd(mo::RM_MEMBER, 0, 0), cmd(mo::RM_MEMBER, 0, 1), cmd(mo::RM_KEY, 0, 0)],
+        true,
+    )
+}
+
+/// thorough tier only: the full alphabet, three actors in first-appearance order, five ops
+fn full5_cfg<Y: Plan>(what: &str, disc: Disc, merge: bool) -> Cfg {
+    cfg(&format!("{} {} full alphabet, 3 actors (first-appearance order), {:?}{} n<={}", Y::NAME, what, disc, if merge { "+merge" } else { "" }, 5), 5, 3, disc, merge, Y::alphabet(), true)
+}
+
 macro_rules! for_systems {
     ($j:ident, [$($Y:ty),*], $f:expr) => { $( { type Y = $Y; let f: &dyn Fn() -> Box<dyn JobT> = &$f; let _ = std::marker::PhantomData::<Y>; $j.push(f()); } )* };
 }
@@ -274,6 +293,9 @@ pub fn jobs(prop: &str, tier: &str) -> Vec<Box<dyn JobT>> {
             if !q {
                 each!([Or, MapMv, MapOr], |Y| job::<Y>(deep_cfg::<Y>("ops", 5, Disc::Causal, false), Converge { closed_only: false, merge_vs_ops: false }));
                 j.push(job::<Mv>(cfg("mvreg ops narrow alphabet, 3 actors, Causal n<=6", 6, 3, Disc::Causal, false, Mv::narrow(), false), Converge { closed_only: false, merge_vs_ops: false }));
+                // one op deeper with the full alphabets and three actors (first-appearance order): a fifth op lets a remove
+                // context hold two foreign actors while its author edits on (seeds C01-6, C05-5, C08-5, C20-5 need 5 ops)
+                each!([Or, MapMv, MapOr], |Y| job::<Y>(full5_cfg::<Y>("ops", Disc::Causal, false), Converge { closed_only: false, merge_vs_ops: false }));
             }
             // self-check of the lattice reduction against a naive permutation enumerator (machinery, not verdict)
             each!([Or, MapOr, MapMv], |Y| {
@@ -330,6 +352,8 @@ pub fn jobs(prop: &str, tier: &str) -> Vec<Box<dyn JobT>> {
             j.push(job::<MapOr>(cfg("map_orswot spec tiny alphabet (one key), 3 actors, Causal n<=5", 5, 3, Disc::Causal, false, vec![cmd(mo::ADD, 0, 0), cmd(mo::ADD, 0, 1), cmd(mo::RM_KEY, 0, 0)], true), SpecMatch { cov_everywhere: false, use_cov: true }));
             if !q {
                 each!([MapMv, MapOr], |Y| job::<Y>(deep_cfg::<Y>("spec", 5, Disc::Causal, false), SpecMatch { cov_everywhere: false, use_cov: true }));
+                each!([MapMv, MapOr], |Y| job::<Y>(full5_cfg::<Y>("spec", Disc::Causal, false), SpecMatch { cov_everywhere: false, use_cov: true }));
+                j.push(job::<MapOr>(map_addall("spec", 5, Disc::Fifo, false), SpecMatch { cov_everywhere: true, use_cov: true }));
             }
         }
         "C06" => {
@@ -352,6 +376,8 @@ pub fn jobs(prop: &str, tier: &str) -> Vec<Box<dyn JobT>> {
             if !q {
                 j.push(job::<Or>(deep_cfg::<Or>("fifo vs causal", 5, Disc::Fifo, true), Converge { closed_only: true, merge_vs_ops: false }));
                 j.push(job::<MapOr>(deep_cfg::<MapOr>("fifo vs causal", 5, Disc::Fifo, false), Converge { closed_only: true, merge_vs_ops: false }));
+                j.push(job::<MapOr>(map_addall("fifo vs causal", 5, Disc::Fifo, false), Converge { closed_only: true, merge_vs_ops: false }));
+                j.push(job::<Or>(full5_cfg::<Or>("fifo vs causal", Disc::Fifo, false), Converge { closed_only: true, merge_vs_ops: false }));
             }
         }
         "C09" => {
@@ -375,6 +401,21 @@ pub fn jobs(prop: &str, tier: &str) -> Vec<Box<dyn JobT>> {
         }
         "C11" => {
             each!([Gc, Pn, Gs, Lww, Mx, Mn], |Y| job::<Y>(plan_cfg::<Y>("aggregate", q, true, Disc::Any, true), Multi::<Y>(vec![Box::new(SpecMatch { cov_everywhere: false, use_cov: false }), Box::new(DupStale), Box::new(ValidateOp), Box::new(ValidateMerge { misuse: false })])));
+            // totals beyond u64: two actors' running totals of 2^63 each add up to 2^64; the aggregate is a big integer and
+            // must stay exact (seed C11-6)
+            {
+                let n = if q { 3 } else { 4 };
+                let mut c = plan_cfg::<Gc>("aggregate", q, true, Disc::Any, true);
+                c.cmds = vec![cmd(sp::INC, 0, 0), cmd(sp::INC_MANY, 1, 0)];
+                c.n = n;
+                c.label = format!("gcounter aggregate with steps of 2^63 Any+merge n<={}", n);
+                j.push(job::<Gc>(c, Multi::<Gc>(vec![Box::new(SpecMatch { cov_everywhere: false, use_cov: false }), Box::new(DupStale)])));
+                let mut c = plan_cfg::<Pn>("aggregate", q, true, Disc::Any, true);
+                c.cmds = vec![cmd(sp::INC, 0, 0), cmd(sp::INC_MANY, 1, 0), cmd(sp::DEC_MANY, 1, 0)];
+                c.n = n;
+                c.label = format!("pncounter aggregate with steps of 2^63 Any+merge n<={}", n);
+                j.push(job::<Pn>(c, Multi::<Pn>(vec![Box::new(SpecMatch { cov_everywhere: false, use_cov: false }), Box::new(DupStale)])));
+            }
             // LWWReg with a possibly reused marker: validate_* must flag exactly equal marker + different value
             let mut c = plan_cfg::<Lww>("reused markers", q, true, Disc::Any, true);
             c.cmds = vec![cmd(sp::UPDATE, 1, 0), cmd(sp::UPDATE_REUSED, 1, 0), cmd(sp::UPDATE_REUSED, 2, 0)];
@@ -439,6 +480,16 @@ pub fn jobs(prop: &str, tier: &str) -> Vec<Box<dyn JobT>> {
                 c4.actors = 4;
                 c4.label = "map_orswot one actor id hosted on two of four replicas (concurrent entry clocks reachable), all pairs, n<=4".into();
                 j.push(job::<MapOr>(c4, ValidateMerge { misuse: true }));
+                // one key, five ops: after a key remove the two misused replicas' entry clocks can be concurrent while one
+                // map clock descends the other (seed C17-5)
+                let mut c5 = mis(plan_cfg::<MapOr>("", q, true, Disc::Causal, false), vec![cmd(mo::ADD, 0, 0), cmd(mo::ADD, 0, 1), cmd(mo::RM_KEY, 0, 0)], 5);
+                c5.label = "map_orswot one actor id hosted on two replicas, one key, all pairs of reachable states, n<=5".into();
+                j.push(job::<MapOr>(c5, ValidateMerge { misuse: true }));
+                // per-actor-FIFO delivery: a state of the pair may hold a pending remove that covers the reused dot (seed C17-6)
+                let mut cf = mis(plan_cfg::<Or>("", q, true, Disc::Causal, false), vec![cmd(so::ADD, 0, 0), cmd(so::ADD, 1, 0), cmd(so::RM_CONTAINS, 0, 0)], 4);
+                cf.disc = Disc::Fifo;
+                cf.label = "orswot one actor id hosted on two replicas, Fifo delivery (pending removes), all pairs of reachable states, n<=4".into();
+                j.push(job::<Or>(cf, ValidateMerge { misuse: true }));
             }
         }
         "C18" => {
@@ -482,6 +533,8 @@ pub fn jobs(prop: &str, tier: &str) -> Vec<Box<dyn JobT>> {
             j.push(job::<Li>(no_sym(plan_cfg::<Li>("== under equal knowledge", q, false, Disc::Causal, false)), EqResidue));
             if !q {
                 j.push(job::<Or>(deep_cfg::<Or>("== and residue", 5, Disc::Fifo, true), EqResidue));
+                j.push(job::<MapOr>(map_addall("== and residue", 5, Disc::Fifo, false), EqResidue));
+                j.push(job::<Or>(full5_cfg::<Or>("== and residue", Disc::Fifo, false), EqResidue));
             }
         }
         _ => {}
